@@ -10,6 +10,7 @@ SeqExpect(cs) == IF \E i \in 1..Len(cs) : CallBytes(cs[i]) = <<-1>> THEN {Err("*
 Expect(e) == CASE e.fam = "enc"    -> EncCall(e.in)
                [] e.fam = "encseq" -> SeqExpect(e.in.calls)
                [] e.fam = "encf"   -> EncFloat(e.name, e.in.bits)
+               [] e.fam = "encit"  -> EncIter(e.in)
 \* a balanced sequence yields exactly one well-formed item (checked on the implementation's own bytes)
 BalancedWF(e) == (e.fam = "encseq" /\ e.obs.p = "ok" /\ Balanced(e.in.calls)) => WellFormedItem(e.obs.v.b)
 EventOK(e) == FObsOK(e.obs, Expect(e)) /\ BalancedWF(e)
